@@ -9,6 +9,8 @@ pub mod c12;
 pub mod c13;
 pub mod c14;
 pub mod c17;
+pub mod c18;
+pub mod c19;
 pub mod c20;
 
 use crate::ast::Node;
@@ -34,6 +36,8 @@ pub fn run(ctx: &RunCtx) -> Outcome {
         "C13" => c13::run(ctx),
         "C14" => c14::run(ctx),
         "C17" => c17::run(ctx),
+        "C18" => c18::run(ctx),
+        "C19" => c19::run(ctx),
         "C20" => c20::run(ctx),
         "C08" => api::run_c08(ctx),
         "C09" => api::run_c09(ctx),
@@ -59,11 +63,13 @@ pub fn replay(ctx: &RunCtx, case: &Value) -> Result<Option<Fail>, String> {
         }
         "C05" => replay_pat(ctx, &api::Safety, case),
         "C06" => c06::replay(ctx, case),
-        "C07" => replay_pat(ctx, &c07::Limits, case),
+        "C07" => replay_pat(ctx, &c07::Limits { only_pos0: false }, case),
         "C12" => c12::replay(ctx, case),
         "C13" => c13::replay(ctx, case),
         "C14" => replay_pat(ctx, &c14::Options, case),
         "C17" => c17::replay(ctx, case),
+        "C18" => c18::replay(ctx, case),
+        "C19" => c19::replay(ctx, case),
         "C20" => c20::replay(ctx, case),
         "C08" => replay_pat(ctx, &api::IterModel, case),
         "C09" => replay_pat(ctx, &api::Coherence, case),
